@@ -244,6 +244,11 @@ def decide(prop, tier, seed, pm, units, results, known, wall):
         seen_known.add(hit["id"])
         print(f"KNOWN-FINDING: property={prop} {hit['id']}: {hit['what']}")
     vio_files = []
+    uniq = {}
+    for r, o in violations:
+        uniq.setdefault(strip_line(o["name"]), (r, o))
+    n_vio_raw = len(violations)
+    violations = list(uniq.values())
     for r, o in violations:
         path = write_replay(prop, r, o)
         vio_files.append(path)
